@@ -27,6 +27,7 @@ type fScenario struct {
 	FromRootsAt int       `json:"from_roots_at"` // op index before which a NewMapPollardFromRoots(partial) instance joins; -1 = never
 	Ops         []fOp     `json:"ops"`
 	LeafMode    string    `json:"leaf_mode,omitempty"` // World.SetLeafMode
+	Share       bool      `json:"share,omitempty"`     // one block record per block, handed to every call without defensive copies
 }
 
 type fGenOpts struct {
@@ -34,6 +35,7 @@ type fGenOpts struct {
 	Rounds                  int // rounds of (blocks, undo)
 	Undo                    bool
 	PartialOps              bool // verify/ingest/prune ops
+	Redo                    bool // an undo may be followed by re-applying the SAME block (same record) before going on
 	ForceEmptyRootOverwrite bool
 }
 
@@ -114,8 +116,22 @@ func genForestScenario(rng *rand.Rand, tag uint64, cfgs []InstCfg, o fGenOpts) f
 				k = len(stack)
 			}
 			s.Ops = append(s.Ops, fOp{Kind: "undo", K: k})
+			states := append(append([]*rm.Model(nil), stack...), m) // states[i] = model before block i; last = current
 			m = stack[len(stack)-k]
 			stack = stack[:len(stack)-k]
+			if o.Redo && rng.Intn(2) == 0 {
+				// the block undone last (the oldest of the k) is applied again from its own record,
+				// sometimes undone and applied a second time
+				n := 1 + rng.Intn(2)
+				for j := 0; j < n; j++ {
+					s.Ops = append(s.Ops, fOp{Kind: "redo"})
+					if j < n-1 {
+						s.Ops = append(s.Ops, fOp{Kind: "undo", K: 1})
+					}
+				}
+				stack = append(stack, m)
+				m = states[len(stack)].Clone()
+			}
 		}
 	}
 	// closing stretch (redo on another branch)
@@ -160,10 +176,15 @@ type fSnap struct {
 func runForest(c *core.Ctx, s fScenario, setupFail failFn, obs fObserver) *World {
 	w := NewWorld(s.Tag, s.Cfgs)
 	w.SetLeafMode(s.LeafMode)
+	w.Shared = s.Share
 	if s.LeafMode != "" {
 		c.Count("scenarios_with_leaf_mode_"+s.LeafMode, 1)
 	}
+	if s.Share {
+		c.Count("scenarios_without_defensive_copies", 1)
+	}
 	var snaps []fSnap
+	var lastUndone *fSnap // the block undone most recently, while nothing has been applied since
 	st := &fState{W: w}
 	slotsToHashes := func(slots []int) []Hash {
 		var out []Hash
@@ -199,15 +220,33 @@ func runForest(c *core.Ctx, s fScenario, setupFail failFn, obs fObserver) *World
 			}
 			w.CommitModel(rec)
 			snaps = append(snaps, sn)
+			lastUndone = nil
 			st.LastRec = rec
 			countTraits(c, traits(rec))
+		case "redo":
+			// the block that was undone last is applied again from the very same record
+			if lastUndone == nil {
+				continue
+			}
+			sn := *lastUndone
+			rec := sn.rec
+			w.ApplyToStump(rec, fail)
+			for _, in := range w.Insts {
+				ApplyToInst(in, rec, fail)
+			}
+			w.M = rec.After.Clone()
+			w.Recs = append(w.Recs, rec)
+			snaps = append(snaps, sn)
+			lastUndone = nil
+			st.LastRec = rec
+			c.Count("blocks_reapplied_from_their_own_record_after_undo", 1)
 		case "undo":
 			for i := 0; i < op.K && len(snaps) > 0; i++ {
 				sn := snaps[len(snaps)-1]
 				snaps = snaps[:len(snaps)-1]
 				rec := sn.rec
 				for _, in := range w.Insts {
-					err := in.U.Undo(uint64(len(rec.Adds)), cloneProof(rec.Proof), cloneHashes(rec.DelHashes), cloneHashes(rec.PrevRoots))
+					err := in.U.Undo(uint64(len(rec.Adds)), rec.pr(rec.Proof), rec.hs(rec.DelHashes), rec.hs(rec.PrevRoots))
 					if err != nil {
 						fail(in.Cfg.Kind+".Undo", "error-on-honest-undo", "", fmt.Sprintf("%s: %v", in.Name, err))
 						continue
@@ -221,11 +260,13 @@ func runForest(c *core.Ctx, s fScenario, setupFail failFn, obs fObserver) *World
 						}
 					}
 				}
-				w.Stump = sn.stump
+				w.Stump = u.Stump{Roots: cloneHashes(sn.stump.Roots), NumLeaves: sn.stump.NumLeaves} // Stump.Update writes its roots in place
 				w.M = sn.before.Clone()
 				w.Recs = w.Recs[:len(w.Recs)-1]
 				st.JustUndid++
 				st.LastRec = rec
+				snc := sn
+				lastUndone = &snc
 			}
 			st.AfterUndo = true
 			c.Max("max_undo_depth", st.JustUndid)
